@@ -284,7 +284,9 @@ fn families(thorough: bool) -> Vec<Family> {
         v.push(staged("products-2-then-add-2", vec![stage(&[VK::Mul], 2, &[0], true, false), stage(&[VK::Add], 2, &[0, 1, 2], false, false)], &[], 0, 3, &[]));
         v.push(staged("dedup-4ops-2in", vec![stage(&[VK::Add, VK::Mul], 4, &[0], true, false)], &[AK::Connect], 1, 2, &[]));
         if thorough {
-            v.push(staged("products-3-then-addsub-3", vec![stage(&[VK::Mul], 3, &[0], true, false), stage(&[VK::Add, VK::Sub], 3, &[0, 1, 2], false, false)], &[], 0, 3, &[]));
+            v.push(staged("products-3-then-add-2", vec![stage(&[VK::Mul], 3, &[0], true, false), stage(&[VK::Add], 2, &[0, 1, 2], false, false)], &[], 0, 3, &[]));
+            v.push(staged("products-2-then-addsub-3", vec![stage(&[VK::Mul], 2, &[0], true, false), stage(&[VK::Add, VK::Sub], 3, &[0, 1, 2], false, false)], &[], 0, 2, &[]));
+            v.push(staged("dedup-5ops-2in", vec![stage(&[VK::Add, VK::Mul], 5, &[0], true, false)], &[AK::Connect], 1, 2, &[]));
         }
     }
     if thorough {
@@ -302,17 +304,52 @@ fn program_list(thorough: bool, ctx: &Ctx) -> (Vec<Program>, bool) {
     for fam in families(thorough) {
         let stats = Stats::default();
         let prune = SeenSet::default();
+        let capped = std::sync::atomic::AtomicBool::new(false);
         explore::<F, F>(&fam, &consts(), ctx, 0.25, &seen, &prune, &stats, &|_p, _m| {}, &|p, _m| {
-            progs.lock().unwrap().push((p.show(), p.clone()));
+            let mut g = progs.lock().unwrap();
+            if g.len() < PROGRAM_CAP {
+                g.push((p.show(), p.clone()));
+            } else {
+                capped.store(true, Ordering::Relaxed);
+            }
         });
-        exhaustive &= !stats.timed_out.load(Ordering::Relaxed);
+        exhaustive &= !stats.timed_out.load(Ordering::Relaxed) && !capped.load(Ordering::Relaxed);
+        println!("family {} programs so far {} exhaustive={}", fam.name, progs.lock().unwrap().len(), !stats.timed_out.load(Ordering::Relaxed));
     }
     let mut v = progs.into_inner().unwrap();
     v.sort_by(|a, b| a.0.cmp(&b.0));
     (v.into_iter().map(|x| x.1).collect(), exhaustive)
 }
 
-type Digests = BTreeMap<String, Vec<(String, String)>>;
+/// Upper bound on the program list (memory: list + one row of digests per program and
+/// environment in flight); families are enumerated smallest first, what exceeds the cap is
+/// dropped and the run is reported as not exhaustive.
+const PROGRAM_CAP: usize = 2_000_000;
+
+/// Digests of one environment: one row per program (list order, then the library circuits);
+/// a row is the list of (interned component name, 64-bit digest of the component's rendering).
+type Row = Vec<(u16, u64)>;
+type Digests = Vec<Row>;
+
+static NAMES: Mutex<Vec<String>> = Mutex::new(Vec::new());
+fn intern(n: &str) -> u16 {
+    let mut g = NAMES.lock().unwrap();
+    if let Some(i) = g.iter().position(|x| x == n) {
+        return i as u16;
+    }
+    g.push(n.to_string());
+    (g.len() - 1) as u16
+}
+fn name_of(i: u16) -> String {
+    NAMES.lock().unwrap()[i as usize].clone()
+}
+fn compress(comps: Vec<(String, String)>) -> Row {
+    // error / panic texts are part of the artefact: digest them like any other component
+    comps.into_iter().map(|(k, v)| (intern(&k), h128(&v) as u64)).collect()
+}
+fn entry_name(list: &[Program], i: usize) -> String {
+    if i < list.len() { list[i].show() } else { library()[i - list.len()].0.clone() }
+}
 
 fn all_digests(list: &[Program], commit_every: usize) -> Digests {
     let mut out: Digests = list
@@ -325,16 +362,16 @@ fn all_digests(list: &[Program], commit_every: usize) -> Digests {
                 Ok(Err(e)) => vec![("error".to_string(), e)],
                 Err(pn) => vec![("panic".to_string(), pn)],
             };
-            (p.show(), comps)
+            compress(comps)
         })
         .collect();
-    for (name, f) in library() {
+    for (_name, f) in library() {
         let comps = match quiet_catch(|| f()) {
             Ok(Ok(c)) => c.into_iter().map(|(k, v)| (k.to_string(), v)).collect(),
             Ok(Err(e)) => vec![("error".to_string(), e)],
             Err(pn) => vec![("panic".to_string(), pn)],
         };
-        out.insert(name, comps);
+        out.push(compress(comps));
     }
     out
 }
@@ -366,7 +403,14 @@ fn main() {
         let every: usize = args[5].parse().unwrap();
         set_seed(seed);
         let d = all_digests(&list, every);
-        println!("{}", vpcore::serde_json::to_string(&d).unwrap());
+        use std::io::Write;
+        let so = std::io::stdout();
+        let mut w = std::io::BufWriter::new(so.lock());
+        for row in &d {
+            let line: Vec<String> = row.iter().map(|(k, v)| format!("{}={v:016x}", name_of(*k))).collect();
+            writeln!(w, "ROW {}", line.join(",")).unwrap();
+        }
+        writeln!(w, "END {}", d.len()).unwrap();
         return;
     }
     let ctx = Ctx::from_args("C18", "exploration");
@@ -388,25 +432,30 @@ fn main() {
     let mut complete = true;
 
     let compare = |other: &Digests, mode: &str| {
-        for (name, comps) in &base {
-            let Some(o) = other.get(name) else {
-                report.violation(format!("missing_program:{mode}"), format!("{name} missing under {mode}"), json!({"program": name, "mode": mode}));
+        if other.len() != base.len() {
+            report.violation(format!("missing_program:{mode}"), format!("{} rows under {mode}, {} under seed 0", other.len(), base.len()), json!({"mode": mode}));
+        }
+        for (i, (comps, o)) in base.iter().zip(other.iter()).enumerate() {
+            if comps == o {
                 continue;
-            };
+            }
+            let name = entry_name(&list, i);
+            let fam = if name.starts_with("lib:") { name.clone() } else { "e1-program".to_string() };
+            if comps.len() != o.len() {
+                report.violation(format!("nondeterministic:shape:{fam}"), format!("{name}: different component list under {mode}"), json!({"program": name, "mode_b": mode}));
+                continue;
+            }
             for ((k, v), (k2, v2)) in comps.iter().zip(o.iter()) {
                 if k != k2 || v != v2 {
-                    let fam = if name.starts_with("lib:") { name.clone() } else { "e1-program".to_string() };
+                    let k = name_of(*k);
                     report.violation_sized(
                         format!("nondeterministic:{k}:{fam}"),
-                        format!("[{k}] of `{name}` differs between seed 0 and {mode}: {v} vs {v2}"),
+                        format!("[{k}] of `{name}` differs between seed 0 and {mode}: {v:016x} vs {v2:016x}"),
                         json!({"program": name, "component": k, "mode_a": "seed 0", "mode_b": mode}),
                         name.len(),
                     );
                     break;
                 }
-            }
-            if comps.len() != o.len() {
-                report.violation(format!("nondeterministic:shape:{mode}"), format!("{name}: different component list under {mode}"), json!({"program": name}));
             }
         }
     };
@@ -449,15 +498,29 @@ fn main() {
         match out {
             Ok(o) if o.status.success() => {
                 let txt = String::from_utf8_lossy(&o.stdout);
-                let line = txt.lines().last().unwrap_or("");
-                match vpcore::serde_json::from_str::<Digests>(line) {
-                    Ok(d) => {
-                        evaluations.fetch_add(d.len() as u64, Ordering::Relaxed);
-                        compare(&d, &format!("child process ({m})"));
-                        runs_done.push(json!({"mode": "child", "seed": m}));
+                let mut d: Digests = Vec::with_capacity(base.len());
+                let mut ended = None;
+                for line in txt.lines() {
+                    if let Some(rest) = line.strip_prefix("ROW ") {
+                        let row: Row = rest
+                            .split(',')
+                            .filter(|x| !x.is_empty())
+                            .map(|kv| {
+                                let (k, v) = kv.rsplit_once('=').unwrap_or_else(|| vpcore::machinery_error("child row unreadable"));
+                                (intern(k), u64::from_str_radix(v, 16).unwrap_or_else(|_| vpcore::machinery_error("child digest unreadable")))
+                            })
+                            .collect();
+                        d.push(row);
+                    } else if let Some(n) = line.strip_prefix("END ") {
+                        ended = n.trim().parse::<usize>().ok();
                     }
-                    Err(e) => vpcore::machinery_error(&format!("child output unreadable: {e}")),
                 }
+                if ended != Some(d.len()) {
+                    vpcore::machinery_error("child output truncated");
+                }
+                evaluations.fetch_add(d.len() as u64, Ordering::Relaxed);
+                compare(&d, &format!("child process ({m})"));
+                runs_done.push(json!({"mode": "child", "seed": m}));
             }
             Ok(o) => vpcore::machinery_error(&format!("child failed: {}", String::from_utf8_lossy(&o.stderr))),
             Err(e) => vpcore::machinery_error(&format!("cannot spawn child: {e}")),
@@ -466,8 +529,13 @@ fn main() {
     let _ = std::fs::remove_file(&tmp);
     set_seed(None);
 
-    let n_err = base.values().filter(|c| c.iter().any(|(k, _)| k == "error" || k == "panic")).count();
-    let samples: Vec<Value> = base.iter().filter(|(k, _)| k.len() > 30).take(4).map(|(k, v)| json!({"program": k, "components": v})).collect();
+    let (e_id, p_id) = (intern("error"), intern("panic"));
+    let n_err = base.iter().filter(|c| c.iter().any(|(k, _)| *k == e_id || *k == p_id)).count();
+    let samples: Vec<Value> = (0..base.len())
+        .filter(|i| entry_name(&list, *i).len() > 30)
+        .take(4)
+        .map(|i| json!({"program": entry_name(&list, i), "components": base[i].iter().map(|(k, v)| (name_of(*k), format!("{v:016x}"))).collect::<Vec<_>>()}))
+        .collect();
     let cov = json!({
         "evaluations": evaluations.load(Ordering::Relaxed),
         "distinct_nontrivial": base.len() - n_err,
@@ -480,7 +548,8 @@ fn main() {
         "seeds_enumerated": seeds.len(),
         "exhaustive": list_exhaustive && complete,
         "hash_iteration_orders_of_a_6_element_probe_set": orders,
-        "components_compared": base.values().next().map(|v| v.iter().map(|(k, _)| k.clone()).collect::<Vec<_>>()),
+        "components_compared": base.first().map(|v| v.iter().map(|(k, _)| name_of(*k)).collect::<Vec<_>>()),
+        "program_cap": PROGRAM_CAP,
         "commitment_every_nth_program": commit_every,
     });
     finish(
